@@ -21,7 +21,7 @@ import (
 func init() {
 	register(stream{
 		name: "chain",
-		rule: "real signed delegations (sealed, then decoded) and invocations over a pool of 5 Ed25519 principals, checked with ExecutionAllowed / ExecutionAllowedWithArgsHook against a map-backed loader. Families: (principals) every chain of ≤ K links (K=2 quick, 3 thorough) over every (issuer, audience, subject∈{0,1,2,absent}) assignment × every invocation (issuer, subject) with a varying audience; (commands) conforming chains of 1–3 links with every assignment of a 6-command lattice (top, parent, child, sibling, shared textual prefix) to invocation and links; (time) every present/absent/past/future combination of not-before and expiration on the invocation and each link; (policy) constraining statements distributed over every link × argument maps, with and without an argument hook (replacing, failing); (random) chains of ≤ 8 (40 thorough) links with 0–2 deviations of any kind at any position, missing and duplicated proofs, irrelevant fields varied. Non-trivial = the chain has ≥ 1 link and at most two clause groups fail. Distinct = distinct protocol lines.",
+		rule: "real signed delegations (sealed, then decoded) and invocations over a pool of 5 Ed25519 principals, checked with ExecutionAllowed / ExecutionAllowedWithArgsHook against a map-backed loader. Families: (principals) every chain of ≤ K links (K=2 quick, 3 thorough) over every (issuer, audience, subject∈{0,1,2,absent}) assignment × every invocation (issuer, subject) with a varying audience; (commands) conforming chains of 1–3 links with every assignment of a 6-command lattice (top, parent, child, sibling, shared textual prefix) to invocation and links; (time) every present/absent/past/future combination of not-before and expiration on the invocation and each link; (policy) constraining statements distributed over every link × argument maps, with and without an argument hook (replacing, failing); (random) chains of ≤ 8 (40 thorough) links with 0–2 deviations of any kind at any position, missing and duplicated proofs, irrelevant fields varied; (histories) the same invocation token validated several times while the loader's content, the argument hook and the wall clock (a bound two seconds away) change between validations. Non-trivial = the chain has ≥ 1 link and at most two clause groups fail. Distinct = distinct protocol lines.",
 		run:  runChainStream,
 		eval: evalChain,
 		cmp:  cmpChain,
@@ -36,6 +36,18 @@ func cmpChain(line, g, m string) string {
 	if strings.HasPrefix(line, "chain.validat") {
 		if g != m {
 			return "IsValidAt differs"
+		}
+		return ""
+	}
+	if strings.HasPrefix(line, "chain.history") {
+		gs, ms := strings.Split(g, ";"), strings.Split(m, ";")
+		if len(gs) != len(ms) {
+			return "harness/model error: step counts differ: " + g + " / " + m
+		}
+		for i := range gs {
+			if d := cmpChain("chain.allowed", gs[i], ms[i]); d != "" {
+				return d
+			}
 		}
 		return ""
 	}
@@ -239,6 +251,16 @@ func evalChain(line string) (out string, rd string) {
 	f := strings.Fields(line)
 	if f[0] == "chain.validat" {
 		return evalValidAt(f), line
+	}
+	if f[0] == "chain.history" {
+		h, err := newHistory(f)
+		if err != nil {
+			return "bad-history " + err.Error(), line
+		}
+		h.runUntilSleep()
+		h.sleepPastShortBounds()
+		h.runRest()
+		return h.result(), line
 	}
 	rd = line
 	// f: chain.allowed inv prf dlgs now args hook [irrelevant]
@@ -694,6 +716,44 @@ func runChainStream(c *ctx) error {
 		}
 		c.emitScenario(s, tag)
 	}
+	// (7) histories: the same invocation token validated repeatedly while the loader, the hook and the
+	// clock change (a result remembered from an earlier validation must not leak into a later one)
+	var hl []string
+	hist := func(s scenario, steps string) {
+		l := s.line()
+		f := strings.Fields(l)
+		// chain.allowed inv prf dlgs now args hook irr  ->  chain.history inv prf dlgs args steps
+		hl = append(hl, "chain.history "+f[1]+" "+f[2]+" "+f[3]+" "+f[5]+" "+steps)
+	}
+	passArgs, failArgs := "m(61:i1)", "m(61:i2)"
+	for n := 1; n <= 3; n++ {
+		for pos := 0; pos < n; pos++ {
+			// loader content changes between validations
+			s := conforming(n)
+			hist(s, "all/-,"+allBut(n, pos)+"/-,all/-")
+			hist(s, allBut(n, pos)+"/-,all/-,none/-")
+			// arguments: a policy on link pos; own arguments pass or fail, hooks pass or fail, in every order
+			p := conforming(n)
+			p.links[pos].pol = "P(ceq(2e61,i1))"
+			p.args = passArgs
+			hist(p, "all/-,all/"+failArgs+",all/-,all/"+passArgs+",all/!")
+			hist(p, "all/"+failArgs+",all/-,all/"+failArgs)
+			p.args = failArgs
+			hist(p, "all/-,all/"+passArgs+",all/-,all/"+failArgs)
+			hist(p, "all/"+passArgs+",all/-,all/"+passArgs+",all/-")
+			// time passes: a bound two seconds away on link pos (expiration or not-before), or on the invocation
+			e := conforming(n)
+			e.links[pos].exp = "2"
+			hist(e, "all/-,T,all/-")
+			b := conforming(n)
+			b.links[pos].nbf = "2"
+			hist(b, "all/-,T,all/-,all/-")
+		}
+		ie := conforming(n)
+		ie.exp = "2"
+		hist(ie, "all/-,all/-,T,all/-")
+	}
+	c.runHistories(hl)
 	// (6) IsValidAt across the timeline: probes on either side of each bound
 	base := time.Now().Add(48 * time.Hour).Truncate(time.Second).UnixNano()
 	deltas := []int64{-3600e9, -1e9, -1, 0, 1, 1e9, 3600e9}
@@ -723,6 +783,20 @@ func runChainStream(c *ctx) error {
 	return nil
 }
 
+// allBut names every loader entry except one
+func allBut(n, skip int) string {
+	var ks []string
+	for i := 0; i < n; i++ {
+		if i != skip {
+			ks = append(ks, strconv.Itoa(i))
+		}
+	}
+	if len(ks) == 0 {
+		return "none"
+	}
+	return strings.Join(ks, ".")
+}
+
 func cmdOr(s string) string {
 	if s == "" {
 		return "/"
@@ -731,3 +805,178 @@ func cmdOr(s string) string {
 }
 
 var _ = datamodel.Null
+
+// ---- histories: the SAME invocation token validated several times while the loader's content, the
+// argument hook and the wall clock change between validations
+
+type history struct {
+	inv     *invocation.Token
+	table   []sealedDlg
+	steps   []string
+	next    int
+	out     []string
+	latest  time.Time // the latest "short" bound among the tokens (everything at +2 s)
+	created time.Time
+}
+
+// newHistory parses: chain.history <inv> <prf> <dlgs> <args> <steps>
+func newHistory(f []string) (*history, error) {
+	ps := principals()
+	h := &history{created: time.Now()}
+	dlgCache = map[string]sealedDlg{} // histories need fresh tokens: their short bounds are relative to now
+	if f[3] != "-" {
+		for _, d := range strings.Split(f[3], "#") {
+			s, err := buildDlg(d)
+			if err != nil {
+				return nil, err
+			}
+			h.table = append(h.table, s)
+			for _, b := range []*time.Time{s.tok.NotBefore(), s.tok.Expiration()} {
+				if b != nil && b.Before(h.created.Add(time.Hour)) && b.After(h.latest) {
+					h.latest = *b
+				}
+			}
+		}
+	}
+	dlgCache = map[string]sealedDlg{}
+	var prf []cid.Cid
+	if f[2] != "-" {
+		for i, p := range strings.Split(f[2], ".") {
+			if p == "x" {
+				prf = append(prf, unknownCid(i))
+				continue
+			}
+			k, _ := strconv.Atoi(p)
+			prf = append(prf, h.table[k].cid)
+		}
+	}
+	iv := strings.Split(f[1], ",")
+	iss, _ := strconv.Atoi(iv[0])
+	sub, _ := strconv.Atoi(iv[1])
+	cmd, err := command.Parse(unhx(iv[3]))
+	if err != nil {
+		return nil, err
+	}
+	var opts []invocation.Option
+	if iv[2] != "-" {
+		a, _ := strconv.Atoi(iv[2])
+		opts = append(opts, invocation.WithAudience(ps[a].did))
+	}
+	exp, err := optOffset(iv[4])
+	if err != nil {
+		return nil, err
+	}
+	if exp != nil {
+		opts = append(opts, invocation.WithExpirationIn(*exp))
+	}
+	an, err := parseNode(f[4])
+	if err != nil {
+		return nil, err
+	}
+	a, err := argsFromNode(an)
+	if err != nil {
+		return nil, err
+	}
+	opts = append(opts, invocation.WithArguments(a))
+	h.inv, err = invocation.New(ps[iss].did, ps[sub].did, cmd, prf, opts...)
+	if err != nil {
+		return nil, err
+	}
+	if e := h.inv.Expiration(); e != nil && e.Before(h.created.Add(time.Hour)) && e.After(h.latest) {
+		h.latest = *e
+	}
+	h.steps = strings.Split(f[5], ",")
+	return h, nil
+}
+
+func (h *history) step(st string) string {
+	p := strings.Split(st, "/")
+	loader := mapLoader{}
+	for i, s := range h.table {
+		keep := p[0] == "all"
+		if !keep && p[0] != "none" {
+			for _, k := range strings.Split(p[0], ".") {
+				if k == strconv.Itoa(i) {
+					keep = true
+				}
+			}
+		}
+		if keep {
+			loader[s.cid] = s.tok
+		}
+	}
+	var err error
+	switch p[1] {
+	case "-":
+		err = h.inv.ExecutionAllowed(loader)
+	case "!":
+		err = h.inv.ExecutionAllowedWithArgsHook(loader, func(args.ReadOnly) (*args.Args, error) { return nil, errHook })
+	default:
+		hn, e := parseNode(p[1])
+		if e != nil {
+			return "bad-hook"
+		}
+		ha, e := argsFromNode(hn)
+		if e != nil {
+			return "bad-hook"
+		}
+		err = h.inv.ExecutionAllowedWithArgsHook(loader, func(args.ReadOnly) (*args.Args, error) { return ha, nil })
+	}
+	return classOf(err)
+}
+
+func (h *history) runUntilSleep() {
+	for h.next < len(h.steps) && h.steps[h.next] != "T" {
+		h.out = append(h.out, h.step(h.steps[h.next]))
+		h.next++
+	}
+}
+
+func (h *history) sleepPastShortBounds() {
+	if h.next < len(h.steps) && h.steps[h.next] == "T" {
+		h.next++
+		if !h.latest.IsZero() {
+			if d := time.Until(h.latest.Add(60 * time.Millisecond)); d > 0 {
+				time.Sleep(d)
+			}
+		}
+	}
+}
+
+func (h *history) runRest() {
+	for h.next < len(h.steps) {
+		if h.steps[h.next] != "T" {
+			h.out = append(h.out, h.step(h.steps[h.next]))
+		}
+		h.next++
+	}
+}
+
+func (h *history) result() string { return strings.Join(h.out, ";") }
+
+// runHistories builds all histories, runs their steps up to the time step, sleeps once, then runs the rest.
+func (c *ctx) runHistories(lines []string) {
+	var hs []*history
+	for _, l := range lines {
+		h, err := newHistory(strings.Fields(l))
+		if err != nil {
+			c.emitPre(l, "bad-history "+err.Error(), l, "chain.history", false, "history:bad")
+			hs = append(hs, nil)
+			continue
+		}
+		h.runUntilSleep()
+		hs = append(hs, h)
+	}
+	for _, h := range hs {
+		if h != nil {
+			h.sleepPastShortBounds()
+		}
+	}
+	for i, h := range hs {
+		if h == nil {
+			continue
+		}
+		h.runRest()
+		c.emitPre(lines[i], h.result(), lines[i], "chain.history", true, "history:"+strconv.Itoa(len(h.out))+"steps")
+	}
+}
